@@ -12,6 +12,11 @@ import sys
 
 ROOT = os.path.dirname(os.path.dirname(os.path.abspath(__file__)))
 HINTS = {
+    'm10': ('prefer a clause of the statement or a part of the quantified domain that none of them touches; think of two '
+            'cooperating sites that each look fine alone, of a shared helper (an __eq__, __hash__, copy, a small parsing or '
+            'formatting function, a default argument) changed for another reason, of sorting keys and stability, of string '
+            'padding / truncation / case, of rounding modes and comparisons with <= versus <, of the first or last '
+            'iteration of a loop, and of behaviour that depends on the order in which the caller supplies equal things'),
     'm9': ('prefer a clause of the statement or a part of the quantified domain that none of them touches; think of empty, '
            'single-element and duplicated inputs, of what is left behind after an exception part-way (and a retry on the same '
            'object), of generators / iterators consumed twice, of clean-up in close() / __exit__ / __del__, of thresholds where '
